@@ -31,6 +31,16 @@ Inductive qact := QSendNow | QNewCollector | QAppend.
    (multicast) or to the next loop iteration (unicast); _answer_find sends the offer to the requester *)
 Inductive fact := FDraw | FLaterEach | FSoonEach | FSendOffer.
 
+(* ServiceDiscoveryProtocol.message_received behind its two guards: the session bookkeeping (AFTER the payload decoded),
+   the reboot fan-out when it says so, resolve + dispatch; reboot_detected and connection_lost: who is called now, who
+   through call_soon and in which order *)
+Inductive mact := MSession | MReboot | MResolveDispatch.
+Inductive ract := RAnnouncerNow | RSoonSubscriberNoop | RSoonDiscovery | LSoonSubscriber | LSoonDiscovery | LSoonAnnouncer.
+
+(* send_sd: nothing for an empty entry list, else take the destination's session id, build and send; start / stop order *)
+Inductive sdact := SAssignSession | SBuildSend.
+Inductive pact := PSubscriber | PAnnouncer | PDiscovery.
+
 (* what SimpleService.message_received answers: nothing, an error with a return code, the positive response *)
 Require Import Coq.NArith.BinNat.
 Inductive greply := GNoReply | GError (rc : N) | GPositive.
